@@ -156,3 +156,35 @@ class DiskSeam:
 
     def digest_events(self):
         return [f"{k}:{p}" for k, p in self.events]
+
+
+def quiesce_io(timeout: float = 5.0) -> None:
+    """Wait until zarr's I/O loop thread has no unfinished task, then collect garbage in
+    the calling thread. After an injected fault the aborted call leaves queued coroutines
+    behind; letting the cyclic GC free them from the main thread while the loop thread is
+    still stepping them crashed the interpreter (SIGSEGV during 'Garbage-collecting').
+    Automatic GC is therefore disabled for the duration of a run and performed here, at
+    points where no library call is in flight."""
+    import asyncio
+    import gc
+
+    try:
+        from zarr.core import sync as zs
+    except Exception:  # noqa: BLE001
+        zs = None
+    if zs is not None and zs.loop[0] is not None and not zs.loop[0].is_closed():
+        loop = zs.loop[0]
+
+        async def _idle():
+            me = asyncio.current_task()
+            for _ in range(200):
+                others = [t for t in asyncio.all_tasks() if t is not me and not t.done()]
+                if not others:
+                    return
+                await asyncio.sleep(0.005)
+
+        try:
+            asyncio.run_coroutine_threadsafe(_idle(), loop).result(timeout=timeout)
+        except Exception:  # noqa: BLE001
+            pass
+    gc.collect()
